@@ -96,8 +96,21 @@ def generate(repo, g):
         raise TieBroken('cache.py: _memoize_default has no `if key in memo`')
     g.define('memoHit', 'List String', lean_list([u(n) for n in ifs[0].body]),
              'jedi/inference/cache.py:_memoize_default hit branch')
-    g.define('memoMiss', 'List String', lean_list([u(n).replace('\n', ' ') for n in ifs[0].orelse]),
+    miss = []
+    cleans = False
+    for n in ifs[0].orelse:
+        if isinstance(n, ast.Try) and len(n.body) == 1 and not n.finalbody and not n.orelse \
+                and all(isinstance(h.body[-1], ast.Raise) and h.body[-1].exc is None for h in n.handlers):
+            # try: rv = function(...) except ...: <remove memo[key]>; raise   -- same normal-path
+            # behaviour as the bare call; the clean-up only matters when the body raises
+            miss.append(u(n.body[0]))
+            cleans = True
+        else:
+            miss.append(u(n).replace('\n', ' '))
+    g.define('memoMiss', 'List String', lean_list(miss),
              'jedi/inference/cache.py:_memoize_default miss branch')
+    g.define('memoCleansOnException', 'Bool', 'true' if cleans else 'false',
+             'jedi/inference/cache.py:_memoize_default (try/except around the computation)')
     # reset_recursion_limitations: what is recreated per query
     fn = inf.find('InferenceState.reset_recursion_limitations')
     g.define('resetAssigns', 'List String',
